@@ -217,7 +217,7 @@ class Interp(ExprMixin, StmtMixin):
                 guard = z3.And(0 <= j, j < L.len_(sv.term))
                 st.qctx.append(((j,), guard))
                 pushed += 1
-                self.bind_target(g.target, self.retag(L.nth(sv.term, j), self.elem_tag(sv)))
+                self.bind_target(g.target, self.retag(L.nth(sv.term, j), self.elem_tag(sv) or ("Val" if self.tainted(src) else None)))
                 conds = [as_bool(self.eval(c)) for c in g.ifs]
                 cond = z3.And(*conds) if conds else None
                 if cond is not None:
